@@ -231,24 +231,29 @@ func lowerPat(p []int, cs, nm bool) []int {
 
 func algoKey(cs algoCase) string { b, _ := json.Marshal(cs); return string(b) }
 
-// first occurrence (forward) of a single pattern char with bonus >= 8: the M=1 fast-path answer (finding K2)
+// Finding K2: FuzzyMatchV2 with a one-character pattern scanning forward stops at the FIRST occurrence whose
+// bonus is >= bonusBoundary instead of taking the maximum. The classifier accepts exactly that shape:
+// the answer is the first occurrence with bonus >= 8 and some later occurrence has a larger bonus.
 func k2Classifier(cs algoCase, ans Val) bool {
 	if cs.Fn != 2 || len(cs.Pat) != 1 || !cs.Fwd || len(ans.L) < 3 {
 		return false
 	}
-	return true
-}
-
-// characters that have a lower-case mapping but are not in class Upper: V2's class-based folding misses them (finding K4)
-func k4Applies(cs algoCase) bool {
-	if cs.Fn != 2 || cs.CS {
-		return false
-	}
-	for _, x := range cs.Text {
+	prev := algo.VerifInitialCharClass()
+	start := int(ans.L[0].I)
+	for i, x := range cs.Text {
 		r := rune(x)
-		if r > 127 && unicode.To(unicode.LowerCase, r) != r && !unicode.IsUpper(r) {
-			return true
+		class := algo.VerifCharClassOf(r)
+		f := r
+		if !cs.CS {
+			f = unicode.ToLower(f)
 		}
+		if cs.NM {
+			f = algo.VerifNormalizeRune(f)
+		}
+		if int(f) == cs.Pat[0] && algo.VerifBonusMatrix(prev, class) >= 8 {
+			return i == start && int(ans.L[2].I) == 16+2*algo.VerifBonusMatrix(prev, class)
+		}
+		prev = class
 	}
 	return false
 }
